@@ -68,8 +68,10 @@ func (r *Result) check(cond bool, rule, construct, pos, okDetail, badDetail stri
 	}
 	return cond
 }
-func (r *Result) min(rule string, n int)          { r.RuleMin[rule] = n }
-func (r *Result) observe(f string, a ...any)      { r.Observations = append(r.Observations, fmt.Sprintf(f, a...)) }
+func (r *Result) min(rule string, n int) { r.RuleMin[rule] = n }
+func (r *Result) observe(f string, a ...any) {
+	r.Observations = append(r.Observations, fmt.Sprintf(f, a...))
+}
 func (r *Result) control(name string, fired bool, wantFired bool) {
 	s := "silent"
 	if fired {
@@ -185,24 +187,40 @@ func (r *Result) finish(verifDir, tier string, seed int, t0 time.Time, known []K
 	if len(samples) == 0 && len(problems) > 0 {
 		samples = problems
 	}
+	// the evidence schema types these as arrays: never emit null for an empty list
+	if r.Assumptions == nil {
+		r.Assumptions = []string{}
+	}
+	if samples == nil {
+		samples = []Oblig{}
+	}
+	if problems == nil {
+		problems = []Oblig{}
+	}
+	if r.Observations == nil {
+		r.Observations = []string{}
+	}
+	if r.Obligs == nil {
+		r.Obligs = []Oblig{}
+	}
 	cov := map[string]any{
-		"explanation":       r.Explanation,
-		"not_covered":       r.NotCovered,
-		"obligations":       total,
-		"discharged":        ndis,
-		"known_findings":    nknown,
-		"undecided":         nund,
+		"explanation":         r.Explanation,
+		"not_covered":         r.NotCovered,
+		"obligations":         total,
+		"discharged":          ndis,
+		"known_findings":      nknown,
+		"undecided":           nund,
 		"unlisted_violations": nviol,
-		"rules":             rules,
-		"controls":          r.Controls,
-		"analysed":          r.Analysed,
-		"tables":            r.Tables,
-		"samples":           samples,
-		"problems":          problems,
-		"all_obligations":   r.Obligs,
-		"observations":      r.Observations,
-		"checker_cmd":       fmt.Sprintf("bin/verifcheck -p %s -tier %s", r.ID, tier),
-		"trusted_base":      []string{"go/types", "go/cfg", "go/ssa (x/tools v0.29.0)", "rule tables in /verif/checker"},
+		"rules":               rules,
+		"controls":            r.Controls,
+		"analysed":            r.Analysed,
+		"tables":              r.Tables,
+		"samples":             samples,
+		"problems":            problems,
+		"all_obligations":     r.Obligs,
+		"observations":        r.Observations,
+		"checker_cmd":         fmt.Sprintf("bin/verifcheck -p %s -tier %s", r.ID, tier),
+		"trusted_base":        []string{"go/types", "go/cfg", "go/ssa (x/tools v0.29.0)", "rule tables in /verif/checker"},
 	}
 	ev := map[string]any{
 		"property_id": r.ID, "tier": tier, "seed": seed, "level": "other",
